@@ -1642,6 +1642,150 @@ def run_helpers(ctx, n: int):
 
 
 # ------------------------------------------------------------------------------------------------
+# decimal stream: non-dyadic durations, collapsed repetition against the default program (implementation only)
+# ------------------------------------------------------------------------------------------------
+
+DEC_DURS = ['1.1', '0.3', '0.1', '0.7', '2.3', '1.9']
+DEC_BODIES = ('ramp', 'table', 'point', 'multi', 'saw-down')
+DEC_CONTEXTS = ('alone', 'lead', 'both', 'outer-rep', 'two-reps')
+DEC_TOL = F(1, 10 ** 9)
+
+
+def decimal_recipe(rng) -> dict:
+    return {'d': rng.choice(DEC_DURS), 'n': rng.choice([4, 5, 6, 7, 9, 10, 12, 3, 2]), 'body': rng.choice(DEC_BODIES),
+            'ctx': rng.choice(DEC_CONTEXTS), 'lead': rng.choice(['1', '0.5', '0.1', '0.3', '1.1', '2']),
+            'tail': rng.choice(['1', '0.7', '0.1']), 'count_param': rng.random() < 0.5, 'by': rng.choice(['id', 'obj']),
+            'v': rng.choice([1, 0.5, -2])}
+
+
+def decimal_build(rc: dict):
+    """(template, repetition node): a repetition `r` of an ATOMIC body whose first and last value differ, of decimal
+    duration d (exact as TimeType), alone / after a lead / between lead and tail / inside an outer repetition / twice"""
+    import qupulse.pulses as qp
+    d, v = rc['d'], rc['v']
+
+    def body(tag=''):
+        k = rc['body']
+        if k == 'ramp':
+            return qp.FunctionPT('%r*t' % v, d, channel='A')
+        if k == 'saw-down':
+            return qp.FunctionPT('%r*(%s - t)' % (v, d), d, channel='A', measurements=[('b' + tag, 0, d)])
+        if k == 'table':
+            return qp.TablePT({'A': [(0, 0), (d, v, 'linear')]})
+        if k == 'point':
+            return qp.PointPT([(0, v), (d, 0, 'linear')], ['A'])
+        return qp.AtomicMultiChannelPT(qp.FunctionPT('%r*t' % v, d, channel='A'), qp.TablePT({'B': [(0, 1), (d, -1, 'linear')]}))
+    chans = {'A': -1.0, 'B': 0.25} if rc['body'] == 'multi' else {'A': -1.0}
+    r = qp.RepetitionPT(body(), 'n' if rc['count_param'] else rc['n'], identifier='r', measurements=[('w', 0, d)])
+    lead = qp.ConstantPT(rc['lead'], chans)
+    tail = qp.ConstantPT(rc['tail'], chans)
+    c = rc['ctx']
+    if c == 'alone':
+        return r, [r]
+    if c == 'lead':
+        return qp.SequencePT(lead, r), [r]
+    if c == 'both':
+        return qp.SequencePT(lead, r, tail), [r]
+    if c == 'outer-rep':
+        return qp.RepetitionPT(qp.SequencePT(lead, r), 2), [r]
+    r2 = qp.RepetitionPT(body('2'), rc['n'] + 1, identifier='r2')
+    return qp.SequencePT(lead, r, tail, r2), [r, r2]
+
+
+def decimal_work(desc: dict) -> dict:
+    """worker: default program against the program with the repetition(s) collapsed, both sampled as they are played
+    (`play_samples`: every leaf owns [start, start + duration), located with exact rationals) on the grid k/10"""
+    import warnings
+    warnings.filterwarnings('ignore')
+    core.ensure_repo_on_path()
+    rc = desc['recipe']
+    out: Dict[str, Any] = {'recipe': rc, 'findings': []}
+    try:
+        pt, reps = decimal_build(rc)
+        params = {'n': rc['n']} if rc['count_param'] else {}
+        base = pt.create_program(parameters=params)
+        single = {x.identifier if rc['by'] == 'id' else x for x in reps}
+        coll = pt.create_program(parameters=params, to_single_waveform=single)
+    except Exception as exc:  # noqa
+        out['findings'].append('instantiation raises %s: %s' % (core.classify_exception(exc), str(exc)[:120]))
+        return out
+    dur = ptgen.num_frac(base.duration)
+    if ptgen.num_frac(coll.duration) != dur:
+        out['findings'].append('the program lasts %s instead of %s' % (ptgen.num_frac(coll.duration), dur))
+    grid = [F(k, 10) for k in range(int(dur * 10))]
+    if len(grid) > 300:
+        # keep every time at which a leaf (a repetition of it) of the default program starts, thin out the rest
+        starts: set = set()
+
+        def walk(l, t0: F) -> F:
+            bd = ptgen.num_frac(l.body_duration)
+            for k in range(l.repetition_count):
+                if l.is_leaf():
+                    starts.add(t0 + k * bd)
+                else:
+                    t = t0 + k * bd
+                    for c in l:
+                        t = walk(c, t)
+            return t0 + l.repetition_count * bd
+        walk(base, F(0))
+        rng = random.Random(desc['seed'])
+        grid = sorted({t for t in grid if t in starts} | set(rng.sample(grid, 120)))
+    out['grid_points'] = len(grid)
+    chans = sorted(ptgen.chan_atom(c) for c in ptgen.leaf_channel_sets(base)[0])
+    sb, _ = play_samples(base, chans, grid)
+    sc, _ = play_samples(coll, chans, grid)
+    for ch in chans:
+        for t, a, b in zip(grid, sb[ch], sc[ch]):
+            if isinstance(a, F) and isinstance(b, F):
+                if abs(a - b) <= DEC_TOL:
+                    continue
+            elif a == b:
+                continue
+            out['findings'].append('the sample on %s at t=%s is %s, the default program plays %s'
+                                   % (ch, t, float(b) if isinstance(b, F) else b, float(a) if isinstance(a, F) else a))
+            break
+
+    def wins(prog):
+        return sorted((name, round(float(b), 9), round(float(l), 9)) for name, (bs, ls) in prog.get_measurement_windows().items()
+                      for b, l in zip(bs, ls))
+    if wins(base) != wins(coll):
+        out['findings'].append('the measurement windows change')
+    return out
+
+
+def decimal_report(ctx, out: dict, count=True) -> bool:
+    rc = out['recipe']
+    if count:
+        ctx.case('decimal:' + json.dumps(rc, sort_keys=True), nontrivial=True)
+        ctx.count('decimal-stream')
+        ctx.count('decimal:ctx=' + rc['ctx'])
+        ctx.count('decimal:grid-points', out.get('grid_points', 0))
+    for f in out['findings']:
+        ctx.violation('decimal durations: with the repetition r (%s times a %s body of duration %s, %s) given as to_single_waveform %s '
+                      '[recipe %s]' % (rc['n'], rc['body'], rc['d'], rc['ctx'], f, json.dumps(rc, sort_keys=True)),
+                      {'kind': 'c05-decimal', 'recipe': rc})
+        return False
+    return True
+
+
+def decimal_stream(ctx, n: int):
+    rng = ctx.fork('decimal')
+    descs = [{'recipe': decimal_recipe(rng), 'seed': i} for i in range(n)]
+    workers = int(os.environ.get('VERIF_WORKERS', '0')) or (6 if ctx.quick else 14)
+    if workers > 1 and len(descs) >= 16:
+        with multiprocessing.get_context('fork').Pool(workers) as pool:
+            outs = pool.map(decimal_work, descs, chunksize=4)
+    else:
+        outs = [decimal_work(d) for d in descs]
+    bad = 0
+    for o in outs:
+        if not decimal_report(ctx, o):
+            bad += 1
+    if bad:
+        ctx.disagreements += bad
+
+
+# ------------------------------------------------------------------------------------------------
 # corpus / replay
 # ------------------------------------------------------------------------------------------------
 
@@ -1693,6 +1837,8 @@ def replay(ctx: core.Ctx, rec: dict, from_corpus: bool = False) -> bool:
                 ctx.violation('%s [replay]' % fs[0].what, helper_replay_dict(r, fs[0]))
                 return False
         return True
+    if kind == 'c05-decimal':
+        return decimal_report(ctx, decimal_work({'recipe': rec['recipe'], 'seed': 0}), count=from_corpus)
     if kind == 'c05-script':
         return replay_script(ctx, rec, count=from_corpus)
     return True
@@ -1894,9 +2040,15 @@ def run(ctx: core.Ctx):
                 'transformations and of the with_parallel_channels / ParallelChannelPT helper arguments add or overwrite INTEGER channel '
                 'ids, incl. 0; they travel to Lean as the atoms #k); grids = piece boundaries, '
                 'boundaries +-1/16, 0, regular grids, strictly inside [0, duration); helper constructors on generated '
-                'templates against the explicit nesting. Non-trivial = a program is produced under a non-default option set '
+                'templates against the explicit nesting; decimal stream (implementation only, tolerance 1e-9): a repetition of an atomic '
+                'body with different first / last value and decimal duration (0.1, 0.3, 0.7, 1.1, 1.9, 2.3, exact as TimeType), 2-12 times, '
+                'alone / after a lead / between lead and tail / in an outer repetition / twice, given as to_single_waveform (by identifier '
+                'or object) against the default program, both sampled leaf by leaf on the grid k/10 (all repetition boundaries). Non-trivial = a program is produced under a non-default option set '
                 '(or by a helper); distinct by canonical request line')
     ctx.assumptions = [
+        'decimal stream: a sample time float(q) of an exact rational q = k/10 on a piece boundary belongs to the later piece; values are '
+        'compared with tolerance 1e-9; only a TOP-LEVEL RepetitionWaveform over an atomic body is produced (nested composite waveforms '
+        'are the classes of PF-C08e / PF-C06-3)',
         'IEEE-754 arithmetic is exact on the generated dyadic numbers (voltages k/8, power-of-two segment lengths, '
         'transformation coefficients with <= 2 fractional bits)',
         'sympy parses, simplifies and lambdifies the generated rational expressions according to their mathematical meaning',
@@ -1925,3 +2077,4 @@ def run(ctx: core.Ctx):
         bad = assess_tree(ctx, rec, rec['replies'])
         report_tree(ctx, rec, bad)
     run_helpers(ctx, ctx.n(260, 6000))
+    decimal_stream(ctx, ctx.n(240, 6000))
